@@ -132,8 +132,10 @@ def gen_program(g, prof):
     ext = []
     # targeted shapes the uniform grammar reaches only rarely (weights per profile); the random program stays around
     pats = prof.get("patterns") or {}
+    which_pat = [None]
     if pats and g.chance(pats.get("_chance", 25)):
         which = g.weighted([(w, k) for k, w in sorted(pats.items()) if k != "_chance"])
+        which_pat[0] = which
         if which == "late_spawn":
             # a task outside group GI spawns into it k cycles after GI's last child signalled and returned
             go, gi_, cs, cl, cc = new("g"), new("g"), new("c"), new("c"), new("c")
@@ -409,4 +411,7 @@ def gen_program(g, prof):
         else:
             ext.append([cyc, "native", g.choice(st["children"])])
     ext.sort(key=lambda e: e[0])
-    return {"config": config, "main": main, "ext": ext}
+    prog = {"config": config, "main": main, "ext": ext}
+    if which_pat[0]:
+        prog["pat"] = which_pat[0]        # (label only: which targeted shape was prepended, counted in the evidence)
+    return prog
